@@ -1571,6 +1571,7 @@ class LoopInvariant:
         else:
             raise Unsupported("LoopInvariant over this iterable")
         mods = [m for m in _assigned_names(st.body) if m in env]
+        env["__loop_carried__"] = tuple(mods)   # names defined before the loop and re-assigned in its body (for role-based look-up)
         tag = f"{self.name}"
 
         def oblige(kind, i, e):
